@@ -177,46 +177,80 @@ func (ic *incorp) deps1(v ssa.Value) depSet {
 // writtenTo: values written into a strings.Builder / bytes.Buffer / hash.Hash object
 // (identified by the SSA value holding it), including writes made by closures that
 // capture it.
-func (ic *incorp) writtenTo(obj ssa.Value) depSet {
+func (ic *incorp) writtenTo(obj ssa.Value) depSet { return ic.writtenToPath(obj, nil) }
+
+// accessPath splits the address of a (nested) field into the value holding the outermost
+// struct and the field names leading to the field.
+func accessPath(v ssa.Value) (ssa.Value, []string) {
+	var path []string
+	for {
+		fa, ok := v.(*ssa.FieldAddr)
+		if !ok {
+			return v, path
+		}
+		path = append([]string{fieldVar(fa.X.Type(), fa.Field).Name()}, path...)
+		v = fa.X
+	}
+}
+
+// writtenToPath: like writtenTo for the builder held in field path `path` of the struct that obj
+// points to (a small key type wrapping the builder). The struct may be handed to module helpers
+// and methods, captured by closures and bound as the receiver of a method value.
+func (ic *incorp) writtenToPath(obj ssa.Value, path []string) depSet {
 	out := depSet{}
 	isWrite := func(name string) bool {
 		return name == "Write" || name == "WriteString" || name == "WriteByte" || name == "WriteRune"
 	}
-	var scan func(user *incorp, target ssa.Value)
-	scan = func(user *incorp, target ssa.Value) {
+	type visitKey struct {
+		v ssa.Value
+		n int
+	}
+	seen := map[visitKey]bool{}
+	var scan func(user *incorp, target ssa.Value, path []string)
+	scan = func(user *incorp, target ssa.Value, path []string) {
+		if seen[visitKey{target, len(path)}] {
+			return
+		}
+		seen[visitKey{target, len(path)}] = true
 		refs := target.Referrers()
 		if refs == nil {
 			return
 		}
 		for _, r := range *refs {
 			switch x := r.(type) {
+			case *ssa.FieldAddr:
+				if x.X == target && len(path) > 0 && fieldVar(x.X.Type(), x.Field).Name() == path[0] {
+					scan(user, x, path[1:])
+				}
 			case *ssa.Call:
 				if x.Call.IsInvoke() {
-					if x.Call.Value == target && isWrite(x.Call.Method.Name()) && len(x.Call.Args) > 0 {
+					if len(path) == 0 && x.Call.Value == target && isWrite(x.Call.Method.Name()) && len(x.Call.Args) > 0 {
 						out.add(user.deps(x.Call.Args[0]))
 					}
-				} else if cal := x.Call.StaticCallee(); cal != nil && len(x.Call.Args) > 1 && x.Call.Args[0] == target && isWrite(cal.Name()) {
+				} else if cal := x.Call.StaticCallee(); len(path) == 0 && cal != nil && len(x.Call.Args) > 1 && x.Call.Args[0] == target && isWrite(cal.Name()) {
 					out.add(user.deps(x.Call.Args[1]))
-				} else if cal != nil && inModule(funcPkgPath(cal)) && cal.Blocks != nil && user.depth < 3 {
+				} else if cal != nil && inModule(funcPkgPath(cal)) && cal.Blocks != nil && user.depth < 4 {
 					// the object is handed to a module helper: whatever the helper writes into that parameter
+					// (a bound-method wrapper passes its captured receiver on as the first argument)
+					params := cal.Params
 					for j, a := range x.Call.Args {
-						if a != target || j >= len(cal.Params) {
+						if a != target || j >= len(params) {
 							continue
 						}
 						sub := newIncorp(user.p, cal)
 						sub.depth = user.depth + 1
-						for tag := range sub.writtenTo(cal.Params[j]) {
+						for tag := range sub.writtenToPath(params[j], path) {
 							out.add(substParams(tag, cal, x.Call.Args, user))
 						}
 					}
 				}
 			case *ssa.UnOp:
 				// load of a variable holding the object (e.g. *hasherVar): follow
-				scan(user, x)
+				scan(user, x, path)
 			case *ssa.Store:
 				// the object (pointer) is spilled into a local that closures capture: follow the local
 				if x.Val == target {
-					scan(user, x.Addr)
+					scan(user, x.Addr, path)
 				}
 			case *ssa.MakeClosure:
 				cl, _ := x.Fn.(*ssa.Function)
@@ -226,13 +260,13 @@ func (ic *incorp) writtenTo(obj ssa.Value) depSet {
 				for i, b := range x.Bindings {
 					if b == target && i < len(cl.FreeVars) {
 						sub := user.closureCtx(x, cl)
-						scan(sub, cl.FreeVars[i])
+						scan(sub, cl.FreeVars[i], path)
 					}
 				}
 			}
 		}
 	}
-	scan(ic, obj)
+	scan(ic, obj, path)
 	return out
 }
 
@@ -309,7 +343,13 @@ func (ic *incorp) callDeps(c *ssa.Call) depSet {
 		return ic.deps(c.Call.Args[0])
 	case name == "(*strings.Builder).String", name == "(*bytes.Buffer).Bytes", name == "(*bytes.Buffer).String":
 		if u := c.Call.Args[0]; u != nil {
-			return ic.writtenTo(u)
+			root, path := accessPath(u)
+			out.add(ic.writtenToPath(root, path))
+			if prm, isPrm := root.(*ssa.Parameter); isPrm && prm.Parent() == ic.fn && ic.outer == nil {
+				// the builder belongs to the caller's object: the caller adds what it wrote
+				out["written("+ic.k.Key(prm)+"|"+strings.Join(path, ".")+")"] = true
+			}
+			return out
 		}
 	case strings.HasPrefix(name, "slices.Sorted"), strings.HasPrefix(name, "slices.Clone"), strings.HasPrefix(name, "slices.Collect"):
 		return ic.deps(c.Call.Args[0])
@@ -359,6 +399,21 @@ func (ic *incorp) callDeps(c *ssa.Call) depSet {
 // substParams rewrites a callee-relative tag (mentioning p<i>) into caller terms.
 func substParams(tag string, cal *ssa.Function, args []ssa.Value, ic *incorp) depSet {
 	out := depSet{}
+	if strings.HasPrefix(tag, "written(p") && strings.HasSuffix(tag, ")") {
+		body := tag[len("written(") : len(tag)-1]
+		if bar := strings.Index(body, "|"); bar > 0 {
+			for i := range cal.Params {
+				if body[:bar] == "p"+itoa(i) && i < len(args) {
+					root, pre := accessPath(args[i])
+					var path []string
+					if body[bar+1:] != "" {
+						path = strings.Split(body[bar+1:], ".")
+					}
+					return ic.writtenToPath(root, append(pre, path...))
+				}
+			}
+		}
+	}
 	for i := range cal.Params {
 		pi := "p" + itoa(i)
 		if tag == pi {
